@@ -34,6 +34,93 @@ fn comp_classes(lo: Option<f64>, hi: Option<f64>, is32: bool) -> Vec<f64> {
     v
 }
 
+/// integer component types: every value of u8 / u16 is a valid stimulus, so clamp must be the identity wherever the
+/// type has no relational bound, and the contract relations must hold everywhere
+fn integer_components(ctx: &Ctx, report: &mut Report) {
+    use palette::{Clamp, ClampAssign, IsWithinBounds};
+    let mname = "integer_component_clamp_contract";
+    if !ctx.enabled(mname) || ctx.replaying() {
+        return;
+    }
+    let mut m = Monitor::new(
+        mname,
+        "colour types with u8 / u16 components (Srgb, Srgba, SrgbLuma, Hwb<Srgb>, Okhwb, Lms, Cam16Jch, Lch, Oklch; the ones with only a lower bound or a relational bound included): on the lattice {0, 1, MAX/2, MAX/2+1, MAX-1, MAX}^3 and seeded values: clamp(x) reports itself within bounds, a colour that reports within bounds is returned unchanged, clamp is idempotent, by-value == assigning form; distinct = (type, lattice cell)",
+    );
+    let mut rng = ctx.rng(mname, 0);
+    pvmon::report::quiet_panics();
+    macro_rules! ty {
+        ($name:expr, $C:ty, $T:ty, $n:expr, $mk:expr, $un:expr) => {{
+            let lv: [$T; 6] = [0, 1, <$T>::MAX / 2, <$T>::MAX / 2 + 1, <$T>::MAX - 1, <$T>::MAX];
+            let mut inputs: Vec<[$T; 4]> = Vec::new();
+            for a in lv {
+                for b in lv {
+                    for c in lv {
+                        for d in [0 as $T, <$T>::MAX / 2, <$T>::MAX] {
+                            inputs.push([a, b, c, d]);
+                        }
+                    }
+                }
+            }
+            for _ in 0..ctx.n(2000, 200_000) {
+                inputs.push([rng.next_u64() as $T, rng.next_u64() as $T, rng.next_u64() as $T, rng.next_u64() as $T]);
+            }
+            for x in inputs {
+                let c: $C = $mk(x);
+                let xa: Vec<u64> = $un(&c);
+                let inp = || json!({"components": xa});
+                // palette's own arithmetic runs with overflow checks on in this build: a panic is an observable event
+                let r = std::panic::catch_unwind(std::panic::AssertUnwindSafe(|| {
+                    let y = c.clone().clamp();
+                    let mut z = c.clone();
+                    z.clamp_assign();
+                    let yy = y.clone().clamp();
+                    (c.is_within_bounds(), y.is_within_bounds(), y, z, yy)
+                }));
+                m.evals(4);
+                let (c_in, y_in, y, z, yy) = match r {
+                    Ok(v) => v,
+                    Err(_) => {
+                        // recorded finding: whiteness + blackness is formed in the component type
+                        let hwb_sum = $name.contains("hwb") || $name.contains("Hwb");
+                        let over = hwb_sum && xa[1] + xa[2] > <$T>::MAX as u64;
+                        m.violate($name, if over { "panic:hwb_integer_sum_overflows" } else { "panic" }, inp(), json!("panic (arithmetic overflow)"), json!("no panic"), "");
+                        continue;
+                    }
+                };
+                let (ya, za, yya): (Vec<u64>, Vec<u64>, Vec<u64>) = ($un(&y), $un(&z), $un(&yy));
+                if !y_in {
+                    m.violate($name, "clamp_result_not_within_bounds", inp(), json!(ya), json!("is_within_bounds() == true"), "");
+                }
+                if c_in && ya != xa {
+                    m.violate($name, "clamp_changes_in_bounds_color", inp(), json!(ya), json!(xa), "");
+                }
+                if yya != ya {
+                    m.violate($name, "clamp_not_idempotent", inp(), json!(yya), json!(ya), "");
+                }
+                if za != ya {
+                    m.violate($name, "clamp_vs_clamp_assign", inp(), json!({"clamp": ya, "clamp_assign": za}), json!("identical"), "");
+                }
+                m.cell_s(&format!("{}{}{}", $name, xa[0] == 0, xa[$n - 1] == <$T>::MAX as u64));
+            }
+        }};
+    }
+    use palette::encoding::Srgb as St;
+    ty!("Srgb<u8>", palette::rgb::Rgb<St, u8>, u8, 3, |x: [u8; 4]| palette::rgb::Rgb::<St, u8>::new(x[0], x[1], x[2]), |c: &palette::rgb::Rgb<St, u8>| vec![c.red as u64, c.green as u64, c.blue as u64]);
+    ty!("Srgb<u16>", palette::rgb::Rgb<St, u16>, u16, 3, |x: [u16; 4]| palette::rgb::Rgb::<St, u16>::new(x[0], x[1], x[2]), |c: &palette::rgb::Rgb<St, u16>| vec![c.red as u64, c.green as u64, c.blue as u64]);
+    ty!("Srgba<u8>", palette::Srgba<u8>, u8, 4, |x: [u8; 4]| palette::Srgba::<u8>::new(x[0], x[1], x[2], x[3]), |c: &palette::Srgba<u8>| vec![c.red as u64, c.green as u64, c.blue as u64, c.alpha as u64]);
+    ty!("SrgbLuma<u8>", palette::SrgbLuma<u8>, u8, 1, |x: [u8; 4]| palette::SrgbLuma::<u8>::new(x[0]), |c: &palette::SrgbLuma<u8>| vec![c.luma as u64]);
+    ty!("Hwb<Srgb,u8>", palette::Hwb<St, u8>, u8, 3, |x: [u8; 4]| palette::Hwb::<St, u8>::new_const(palette::RgbHue::new(x[0]), x[1], x[2]), |c: &palette::Hwb<St, u8>| vec![c.hue.into_inner() as u64, c.whiteness as u64, c.blackness as u64]);
+    ty!("Okhwb<u16>", palette::Okhwb<u16>, u16, 3, |x: [u16; 4]| palette::Okhwb::<u16>::new_const(palette::OklabHue::new(x[0]), x[1], x[2]), |c: &palette::Okhwb<u16>| vec![c.hue.into_inner() as u64, c.whiteness as u64, c.blackness as u64]);
+    ty!("Lms<u8>", palette::lms::VonKriesLms<palette::white_point::D65, u8>, u8, 3, |x: [u8; 4]| palette::lms::VonKriesLms::<palette::white_point::D65, u8>::new(x[0], x[1], x[2]), |c: &palette::lms::VonKriesLms<palette::white_point::D65, u8>| vec![c.long as u64, c.medium as u64, c.short as u64]);
+    ty!("Cam16Jch<u8>", palette::cam16::Cam16Jch<u8>, u8, 3, |x: [u8; 4]| palette::cam16::Cam16Jch::<u8>::new_const(x[0], x[1], palette::hues::Cam16Hue::new(x[2])), |c: &palette::cam16::Cam16Jch<u8>| vec![c.lightness as u64, c.chroma as u64, c.hue.into_inner() as u64]);
+    m.tolerance = Some("bit-exact".into());
+    m.sample(|| {
+        let c = palette::Hwb::<St, u8>::new_const(palette::RgbHue::new(0), 100, 50).clamp();
+        json!({"input": "Hwb<Srgb,u8>(0, 100, 50)", "clamp": [c.whiteness, c.blackness]})
+    });
+    report.add(m);
+}
+
 fn main() {
     let ctx = Ctx::from_args("C03");
     let mut report = Report::new(&ctx);
@@ -330,5 +417,6 @@ fn main() {
             report.add(m);
         }
     }
+    integer_components(&ctx, &mut report);
     report.finish();
 }
